@@ -49,7 +49,7 @@ def gen_opts(rng):
 def gen_perturbation(rng, nalloc):
     """A perturbed plan as a dict of dimensions; absent dimension = canonical."""
     p = {}
-    dims = ["gc", "heapbase", "stackpad", "envpad", "wash", "clock", "pid", "env", "cwd", "gcenv", "inodes"]
+    dims = ["gc", "heapbase", "stackpad", "envpad", "wash", "clock", "pid", "env", "cwd", "gcenv", "inodes", "image"]
     on = [d for d in dims if rng.chance(1, 2)]
     if not on:
         on = [rng.choice(dims)]
@@ -102,6 +102,8 @@ def gen_perturbation(rng, nalloc):
         p["cwd"] = "/".join(rng.choice(["a", "bb", "ccc", "d.d", "e e"]) for _ in range(rng.range(1, 4)))
     if "inodes" in on:
         p["inodes"] = rng.choice(["collide16", "collide16", "collide8", "huge"])
+    if "image" in on:
+        p["image"] = "b"	# the same objects linked at another address
     if "gcenv" in on:
         e = {}
         for v, vals in (("GC_GEFN", ["1", "3", "7"]), ("GC_GEFD", ["10", "8"]), ("GC_GGFN", ["12", "14", "20"]), ("GC_GGFD", ["10"]), ("GC_FRUGAL", ["1"])):
@@ -149,7 +151,7 @@ def run_compile(binfo, scratch, files, opts, srcs, p, cpu=120):
     if "gcopt" in p:
         o = [p["gcopt"]] + o
     plan = ["fs root " + sb] + plan_lines(p)
-    argv = [binfo["aldor"]] + buildlib.aldor_args() + o + list(srcs)
+    argv = [binfo["aldor_b" if p.get("image") == "b" and binfo.get("aldor_b") else "aldor"]] + buildlib.aldor_args() + o + list(srcs)
     r = vsim.run_world(binfo, argv, plan, w, cwd=run_dir, env=env, cpu=cpu, envpad=p.get("envpad", 0), collect=False)
     r.files = vsim.collect_files(run_dir, skip=tuple(files.keys()))
     vsim.cleanup_world(w)
